@@ -43,6 +43,29 @@ def hamiltonian(rng, N, cplx):
     return (H + H.conj().T) / 2
 
 
+def padded_state(rng, dims, cplx):
+    """a state of low TT rank (1 or 2 on every bond) stored in right-orthonormal cores of MAXIMAL formal ranks: the low-rank cores
+    sit in the leading block, the additional rows of every core are an orthonormal completion and the additional columns of the old
+    rows are zero (so the additional bond indices are never reached): bond matrices with exactly vanishing Schmidt values"""
+    d = len(dims)
+    mr = dense.max_ranks(dims)
+    low = [1] + [min(mr[i], 1 + int(rng.integers(0, 2))) for i in range(1, d)] + [1]
+    lc = initial_state(rng, dims, low, cplx).cores
+    out = []
+    for i in range(d):
+        r0, n, _, r1 = lc[i].shape
+        R0, R1 = mr[i], mr[i + 1]
+        core = np.zeros((R0, n, 1, R1), dtype=lc[i].dtype)
+        core[:r0, :, :, :r1] = lc[i]
+        if i > 0 and R0 > r0:
+            rows = core[:r0].reshape(r0, n * R1)
+            # orthonormal completion of the row space (R0 <= n R1 for maximal ranks)
+            q, _ = np.linalg.qr(np.concatenate([rows.conj().T, build.rand_array(rng, (n * R1, R0 - r0), cplx)], axis=1))
+            core[r0:] = q[:, r0:R0].conj().T.reshape(R0 - r0, n, 1, R1)
+        out.append(core)
+    return TT(out)
+
+
 def initial_state(rng, dims, ranks, cplx):
     cores = [build.rand_array(rng, (ranks[i], dims[i], 1, ranks[i + 1]), cplx) for i in range(len(dims))]
     cores = dense.qr_right(cores)
@@ -55,14 +78,14 @@ def tdvp_case(draw):
     dims = draw(st.sampled_from(DIMS))
     d = len(dims)
     mr = dense.max_ranks(dims)
-    rk = draw(st.sampled_from(['maximal', 'maximal', 'maximal_tiny', 'intermediate', 'rank1', 'product']))
-    if rk in ('maximal', 'maximal_tiny'):
+    rk = draw(st.sampled_from(['maximal', 'maximal', 'maximal_tiny', 'maximal_padded', 'intermediate', 'rank1', 'product']))
+    if rk in ('maximal', 'maximal_tiny', 'maximal_padded'):
         ranks = mr
     elif rk in ('rank1', 'product'):
         ranks = [1] * (d + 1)
     else:
         ranks = [1] + [draw(st.integers(1, mr[i])) for i in range(1, d)] + [1]
-    c = {'dims': dims, 'ranks': ranks, 'rank_class': rk if (ranks != mr or rk in ('product', 'maximal_tiny')) else 'maximal', 'cplx': draw(st.booleans()), 'seed': draw(gen.SEED),
+    c = {'dims': dims, 'ranks': ranks, 'rank_class': rk if (ranks != mr or rk in ('product', 'maximal_tiny', 'maximal_padded')) else 'maximal', 'cplx': draw(st.booleans()), 'seed': draw(gen.SEED),
          'h': draw(st.sampled_from([0.05, 0.1, 0.25, 0.5])), 'steps': draw(st.integers(1, 3)),
          'method': draw(st.sampled_from(['tdvp1site', 'tdvp1site', 'tdvp2site', 'tdvp'])),
          'threshold': draw(st.sampled_from([None, None, 0, 1e-12, 1e-8])), 'max_rank': draw(st.sampled_from([None, None, 50, 2, 3, 'inf', 'inf'])),
@@ -93,6 +116,8 @@ def body_tdvp(c):
         cores = dense.qr_right(dense.tt_svd(vec.reshape(dims), dims, [1] * len(dims), tol=1e-15))
         cores[0] = cores[0] / np.linalg.norm(cores[0])
         x0 = TT(cores)
+    elif c['rank_class'] == 'maximal_padded':
+        x0 = padded_state(rng, dims, c['cplx'])
     else:
         x0 = initial_state(rng, dims, c['ranks'], c['cplx'])
     v0 = dense.matrix(x0.cores).reshape(-1).astype(complex)
@@ -112,8 +137,8 @@ def body_tdvp(c):
     require(isinstance(sol, list) and len(sol) == c['steps'] + 1, 'length', '%d states for %d steps' % (len(sol), c['steps']))
     require(sol[0] is x0, 'initial_by_identity', 'first element of the trajectory is not the initial state object')
     for t, s in snaps:
-        build.require_unchanged(t, s, 'argument of ' + m)
-    lab = {m, 'ranks_' + ('product' if product else 'maximal_tiny' if c['rank_class'] == 'maximal_tiny' else 'maximal' if maximal else c['rank_class'])}
+        build.require_unchanged(t, s, 'argument of ' + m, strict=True)
+    lab = {m, 'ranks_' + ('product' if product else c['rank_class'] if c['rank_class'] in ('maximal_tiny', 'maximal_padded') else 'maximal' if maximal else c['rank_class'])}
     if 1 in dims:
         lab.add('size1mode')
     if c['cplx']:
@@ -172,7 +197,9 @@ def krylov_case(draw):
             'rank': draw(st.sampled_from(['maximal', 'rank1', 'two'])), 'norm': draw(st.sampled_from([1.0, 1.0, 2.0, 0.5, 1e-6, 1e4])),
             # the Krylov propagator makes no use of a gauge: generic (non-orthonormal) cores, left-orthonormal cores
             'gauge': draw(st.sampled_from(['right_orthonormal', 'generic', 'generic', 'left_orthonormal'])),
-            'unit_exp': draw(st.sampled_from([0, 0, -13, 6]))}
+            'unit_exp': draw(st.sampled_from([0, 0, -13, 6])),
+            # a requested Krylov dimension beyond the dimension of the state space still spans it ("for all Krylov dimensions")
+            'extra_dim': draw(st.sampled_from([0, 0, 1, 3]))}
 
 
 def body_krylov(c):
@@ -205,9 +232,9 @@ def body_krylov(c):
     coef = np.abs(V.conj().T @ v0) / np.linalg.norm(v0)
     assume(coef.min() > 1e-3 and np.min(np.diff(w)) > 1e-3)
     snaps = [(t, build.snapshot(t)) for t in (op, x0)]
-    s = ode.krylov(op, x0, N, c['h'] / unit)
+    s = ode.krylov(op, x0, N + c.get('extra_dim', 0), c['h'] / unit)
     for t, sn in snaps:
-        build.require_unchanged(t, sn, 'argument of krylov')
+        build.require_unchanged(t, sn, 'argument of krylov', strict=True)
     require_consistent(s, 'consistent')
     require(s.row_dims == dims, 'dims', 'rows %s' % s.row_dims)
     got = dense.matrix(s.cores).reshape(-1)
@@ -220,6 +247,8 @@ def body_krylov(c):
         lab.add('start_not_right_orthonormal')
     if c.get('unit_exp', 0):
         lab.add('rescaled_units')
+    if c.get('extra_dim', 0):
+        lab.add('dimension_above_state_space')
     if c['cplx']:
         lab.add('complex')
     if d >= 3:
@@ -233,7 +262,7 @@ def nt(labels):
 
 SUBCHECKS = [
     Sub('tdvp', tdvp_case(), body_tdvp, nt, quick=250, thorough=2500, shards_quick=8, budget_quick=150,
-        classes=['tdvp1site', 'tdvp2site', 'tdvp', 'ranks_maximal', 'ranks_maximal_tiny', 'ranks_intermediate', 'ranks_rank1', 'ranks_product', 'size1mode', 'complex', 'order>=3', 'multi_step',
+        classes=['tdvp1site', 'tdvp2site', 'tdvp', 'ranks_maximal', 'ranks_maximal_tiny', 'ranks_maximal_padded', 'ranks_intermediate', 'ranks_rank1', 'ranks_product', 'size1mode', 'complex', 'order>=3', 'multi_step',
                  'truncating']),
     Sub('krylov', krylov_case(), body_krylov, nt, quick=100, thorough=1000, shards_quick=4, budget_quick=150,
         classes=['krylov', 'complex', 'order>=3', 'unnormalised_start']),
